@@ -66,7 +66,7 @@ func genSrvReq(g *simrt.Tape) *ReqSc {
 		rs.Version = 5
 	}
 	if g.Draw(12) == 0 {
-		rs.CountDelta = 1
+		rs.CountDelta = []int{1, 1, -1000, -2000, 1000}[g.Draw(5)]
 	}
 	n := 1 + g.Draw(5)
 	for i := 0; i < n; i++ {
